@@ -5,6 +5,8 @@
 //! impl line:  code=<exit code> started=<failing commands that ran> good=<good outputs present>
 //! case line:  n2bin where <-C d given> <-f alt.ninja given> <-f before -C> <targets, comma separated, or ->
 //! impl line:  code=<exit code> built=<outputs present> marker=<their contents> db=<logs present>
+//! case line:  n2bin summary <copying steps> <sources changed before the second invocation> <failing steps added to it>
+//! impl line:  codes=<two exit codes> first=<hex of the `n2: ` lines of invocation 1> second=<same, invocation 2> copied=<outputs equal to their source at the end>
 //! case line:  n2bin jobs <j> <steps> <pool depth, `console` or ->
 //! impl line:  code=<exit code> peak=<largest number of commands seen running at once> ran=<commands that ran>
 use crate::proj::TempProject;
@@ -43,6 +45,26 @@ fn jobs(bin: &str, j: usize, n: usize, pool: &str) -> String {
     format!("code={} peak={} ran={}", o.status.code().unwrap_or(-1), peak, ran)
 }
 
+/// the summary line and exit status of run_impl (C19): `n` copying steps, a second invocation after
+/// `m` of the sources changed, with `f` steps failing in it
+fn summary(bin: &str, n: usize, m: usize, f: usize) -> String {
+    let mut mf = String::from("rule cp\n  command = cp $in $out\nrule bad\n  command = exit 1\n");
+    for i in 0..n { mf.push_str(&format!("build out{}: cp in{}\n", i, i)); std::fs::write(format!("in{}", i), "1").unwrap(); }
+    std::fs::write("build.ninja", &mf).unwrap();
+    let last = |o: &std::process::Output| -> String {
+        let t = String::from_utf8_lossy(&o.stdout).to_string();
+        let l: Vec<&str> = t.lines().filter(|l| l.starts_with("n2: ") && !l.starts_with("n2: error")).collect();
+        if l.is_empty() { "-".into() } else { crate::util::hex(l.join("|").as_bytes()) }
+    };
+    let Ok(o1) = Command::new(bin).arg("-k").arg("100").output() else { return "spawn-failed".into() };
+    for i in 0..m { std::fs::write(format!("in{}", i), "22").unwrap(); }
+    for i in 0..f { mf.push_str(&format!("build bad{}: bad\n", i)); }
+    std::fs::write("build.ninja", &mf).unwrap();
+    let Ok(o2) = Command::new(bin).arg("-k").arg("100").output() else { return "spawn-failed".into() };
+    let copied = (0..n).filter(|i| std::fs::read(format!("out{}", i)).ok() == std::fs::read(format!("in{}", i)).ok()).count();
+    format!("codes={},{} first={} second={} copied={}", o1.status.code().unwrap_or(-1), o2.status.code().unwrap_or(-1), last(&o1), last(&o2), copied)
+}
+
 /// -C / -f / builddir / positional targets as parse_args reads them (C18)
 fn whereis(bin: &str, c: bool, f: bool, f_first: bool, targets: &str) -> String {
     for (dir, tag) in [(".", "top"), ("d", "d")] {
@@ -76,6 +98,9 @@ pub fn run(ctx: &mut Ctx) {
             if t.len() == 6 && t[1] == "keepgoing" {
                 let (n, g, j) = (t[3].parse().unwrap_or(0), t[4].parse().unwrap_or(0), t[5].parse().unwrap_or(1));
                 ctx.emit(&c, || { tp.reset(); keepgoing(&bin, t[2], n, g, j) });
+            } else if t.len() == 5 && t[1] == "summary" {
+                let (n, m, f) = (t[2].parse().unwrap_or(0), t[3].parse().unwrap_or(0), t[4].parse().unwrap_or(0));
+                ctx.emit(&c, || { tp.reset(); summary(&bin, n, m, f) });
             } else if t.len() == 6 && t[1] == "where" {
                 ctx.emit(&c, || { tp.reset(); whereis(&bin, t[2] == "1", t[3] == "1", t[4] == "1", t[5]) });
             } else if t.len() == 5 && t[1] == "jobs" {
@@ -101,6 +126,12 @@ pub fn run(ctx: &mut Ctx) {
             ctx.emit(&format!("n2bin where {} {} {} {}", c as u8, f as u8, f_first as u8, targets), || { tp.reset(); whereis(&bin, c, f, f_first, targets) });
         }
     } } }
+    let mut sm: Vec<(usize, usize, usize)> = vec![(0, 0, 0), (1, 0, 0), (1, 1, 0), (2, 0, 0), (2, 1, 0), (2, 2, 0), (5, 3, 0), (12, 11, 0), (3, 0, 1), (3, 2, 1), (3, 3, 2), (0, 0, 1)];
+    if ctx.thorough() { for _ in 0..40 { let n = ctx.rng.below(15); sm.push((n, ctx.rng.below(n + 1), if ctx.rng.chance(1, 3) { ctx.rng.range(1, 3) } else { 0 })); } }
+    for (n, m, f) in sm {
+        ctx.count("opts_summary");
+        ctx.emit(&format!("n2bin summary {} {} {}", n, m, f), || { tp.reset(); summary(&bin, n, m, f) });
+    }
     for (k, n, g, j) in kg {
         ctx.count("opts_keepgoing");
         ctx.emit(&format!("n2bin keepgoing {} {} {} {}", k, n, g, j), || { tp.reset(); keepgoing(&bin, &k, n, g, j) });
